@@ -41,6 +41,17 @@ class Ctx:
     def bitop(self, name, x, y): return models.bit_op(name, x, y)
 
 
+def refine_bits(op, value, p, timeout_ms=30000):
+    """operands a, b in [0, p) whose exact 256-bit a|b (a&b, a^b) equals `value` (z3, bit-vectors), or None"""
+    x, y = z3.Ints('x y')
+    s = z3.Solver(); s.set('timeout', timeout_ms)
+    X, Y = z3.Int2BV(x, 256), z3.Int2BV(y, 256)
+    r = z3.BV2Int({'bit_and': X & Y, 'bit_or': X | Y, 'bit_xor': X ^ Y}[op])
+    s.add(x >= 0, x < p, y >= 0, y < p, r == value)
+    if s.check() != z3.sat: return None
+    m = s.model(); return m[x].as_long(), m[y].as_long()
+
+
 def find_fn(name):
     fns = prog().crates['algebra']
     hits = [f for n, f in fns.items() if (n == name or n.endswith('::' + name)) and 'promoted' not in n and '{closure' not in n]
@@ -88,6 +99,13 @@ def run_task(task):
     h.step_budget = 3_000_000
     stats = Stats(); viols = []; incon = []
     unary = op in O.UNARY
+    # the bitwise operations have exact bit-vector semantics (operands are < 2^256 in every mode); the other operations keep & | ^ as
+    # shared uninterpreted symbols (they only use them through masks)
+    models.EXACT_BITS['width'] = None
+    if op in ('bit_and', 'bit_or', 'bit_xor'):
+        # & | ^ stay shared uninterpreted symbols (constrained by sound bounds); the value the solver gives the symbol is part of the model so
+        # that a non-reproducing model can be refined with exact bit-vector semantics (main: refine_bits)
+        h.inputs['bits_result'] = models.bit_op(op[4:], a, b)
     ctx = Ctx(None)
 
     def mk_args(av, bv):
@@ -221,6 +239,13 @@ def main(tier, replay=None):
             rep.validated += 1
             role = role_of(t, v)
             key = json.dumps(role, sort_keys=True)
+            if not conf and t['op'] in ('bit_and', 'bit_or', 'bit_xor') and m.get('bits_result') is not None:
+                # counterexample-guided refinement: the model gave the uninterpreted a|b (a&b, a^b) a value the real operation does not
+                # take on these operands; ask for operands on which the REAL bit-vector operation has exactly that value
+                ref = refine_bits(t['op'], m['bits_result'], p)
+                if ref is not None:
+                    av, bv = ref
+                    conf, got, exp = native_check(nat, t['op'], av, bv, p); rep.validated += 1
             if not conf:
                 rep.nonrepro.append({'task': t, 'violation': v, 'observed': got, 'expected': str(exp)})
                 continue
